@@ -7,8 +7,11 @@ import (
 	"go/token"
 	"go/types"
 	"math/big"
+	"regexp"
 	"strings"
 )
+
+var binderNameRe = regexp.MustCompile(`^[A-Za-z_][A-Za-z0-9_]*!b[0-9]+$`)
 
 func (x *Exec) inSpec() bool { return x.specDepth > 0 }
 
@@ -113,7 +116,7 @@ func (x *Exec) eval(e ast.Expr, st *State, env *Env) Value {
 			if x.classify(bt).Bits == 8 {
 				ti = TInfo{K: TBV, Bits: 8}
 			}
-			if len(x.autoTrig) > 0 && strings.Contains(i.T, "!") && !strings.ContainsAny(i.T, "() ") {
+			if len(x.autoTrig) > 0 && binderNameRe.MatchString(i.T) {
 				// ghost map read at a bare bound variable: candidate trigger term for that variable
 				x.autoTrig[len(x.autoTrig)-1] = append(x.autoTrig[len(x.autoTrig)-1], "ghost:("+app("select", m.T, i.T)+")")
 			} else if len(x.autoTrig) > 0 && strings.Contains(i.T, "!b") {
